@@ -195,6 +195,8 @@ fn objectives() -> Vec<Option<FnRep>> {
         // representation quirks: split constant, explicit zeros, degree 0 with several constant monomials
         Some(FnRep::Poly { terms: vec![(vec![], 2.0), (vec![1], 1.0), (vec![], -0.5), (vec![2, 1], 0.0)] }),
         Some(FnRep::Poly { terms: vec![(vec![], 1.0), (vec![], 2.0)] }),
+        // 40 terms over two ids (longer than any block a chunked summation would use)
+        Some(FnRep::Lin { terms: (0..40usize).map(|i| (1 + (i % 2) as u64, [1.0, -0.5, 2.0][i % 3])).collect(), c: 0.5 }),
     ]
 }
 
@@ -238,12 +240,20 @@ fn build(vc: &VarCfg, obj: &Option<FnRep>, cons: &(Vec<ConRep>, Vec<RemRep>)) ->
         }
         _ => {}
     }
+    // The decision-variable, constraint and removed-constraint lists are sets: half of the family
+    // lists them in reverse order (descending ids for the variables).
+    let (mut active, mut removed) = (cons.0.clone(), cons.1.clone());
+    if (vc.dep as usize + active.len() + usize::from(vc.prefixed)) % 2 == 1 {
+        vars.reverse();
+        active.reverse();
+        removed.reverse();
+    }
     InstRep {
         sense: SENSE_MIN,
         objective: obj.clone(),
         vars,
-        constraints: cons.0.clone(),
-        removed: cons.1.clone(),
+        constraints: active,
+        removed,
         dependencies: deps,
         ..Default::default()
     }
